@@ -170,6 +170,27 @@ pub fn check_message(frames: &Frames) -> Vec<Failure> {
             );
         }
     }
+    // ... and as it arrives on a transport: through the library's REAL framed reader, which hands
+    // the decoder the stream in reads of at most 8 KiB, i.e. a large frame is seen incomplete
+    // hundreds of times before it is whole
+    {
+        let mut stream = greeting.clone();
+        stream.extend_from_slice(&lib_enc);
+        let run = libcodec::framed_run(&stream, &[stream.len()], None, 1 << 20);
+        let ok = run.errors.is_empty() && run.items.len() == 2 && matches!(run.items[0], LItem::Greeting { .. }) && run.items[1] == LItem::Message(frames.clone()) && run.buffered == 0;
+        if !ok {
+            fail!(
+                f,
+                "C01/decode/roundtrip-through-framed-reader",
+                "the framed reader (8 KiB reads) gave {} items, errors {:?}, end {:?}, {} bytes left; expected the greeting and the message with frame lengths {:?}",
+                run.items.len(),
+                run.errors,
+                run.end,
+                run.buffered,
+                frames.iter().map(|x| x.len()).collect::<Vec<_>>()
+            );
+        }
+    }
     f
 }
 
@@ -759,7 +780,7 @@ pub fn run(ctx: &Ctx) -> (Report, PropertyMeta) {
 
     let meta = PropertyMeta {
         level: "exploration",
-        rule: "messages: exhaustive cross product of frame lengths {0,1,2,254,255,256,257,65535,65536,65537} for 1..3 frames plus proptest-generated 1..8 frames with log-uniform lengths (quick: to 4 MiB, thorough: to 16 MiB) and four body fills; greeting/READY captured from the wire of all 9 real socket types x 7 identity options; READY with generated property lists through the bare encoder; messages through real PUSH/DEALER/PUB/XPUB sockets. Oracle: byte equality with an independent RFC-23 encoder, strict independent decoder, and library decode round trip. Non-trivial = a frame of length 0 or >= 256, or >= 2 frames (for handshake cases: every case); distinct by hash of the case (length tuple + body fill)".into(),
+        rule: "messages: exhaustive cross product of frame lengths {0,1,2,254,255,256,257,65535,65536,65537} for 1..3 frames plus proptest-generated 1..8 frames with log-uniform lengths (quick: to 4 MiB, thorough: to 16 MiB) and four body fills; greeting/READY captured from the wire of all 9 real socket types x 7 identity options; READY with generated property lists through the bare encoder; messages through real PUSH/DEALER/PUB/XPUB sockets. Oracle: byte equality with an independent RFC-23 encoder, strict independent decoder, and library decode round trip - of the whole buffer at once and through the real framed reader in 8 KiB reads (a multi-MiB frame is seen incomplete hundreds of times). Non-trivial = a frame of length 0 or >= 256, or >= 2 frames (for handshake cases: every case); distinct by hash of the case (length tuple + body fill)".into(),
         assumptions: vec![
             "the reference codec in harness/src/refcodec.rs transcribes RFC 23 correctly".into(),
             "signature padding bytes 1..8 of the greeting are not significant (RFC 23)".into(),
